@@ -212,6 +212,25 @@ func genCfg(r *rand.Rand, g GenOpts) *Cfg {
 		}
 		c.Banks = append(c.Banks, b)
 	}
+	if r.Intn(14) == 0 {
+		// very large amounts: around 2^31, 2^53 and 2^55 (32-bit and float64 conversions would show here)
+		base := []int64{1 << 31, 1 << 32, 1 << 53, 1 << 55}[r.Intn(4)]
+		for i := range c.Banks {
+			if r.Intn(3) != 0 {
+				c.Banks[i] = base + int64(r.Intn(2000)) - 1000
+			}
+		}
+		if r.Intn(3) == 0 {
+			c.BB = base / 64
+			c.SB = c.BB / 2
+			if c.Ante > 0 {
+				c.Ante = base/512 + 1
+			}
+			if c.Dl > 0 {
+				c.Dl = c.BB
+			}
+		}
+	}
 	c.DealerIdx = 0
 	if r.Intn(3) == 0 {
 		c.DealerIdx = r.Intn(c.N)
